@@ -8,15 +8,35 @@ From L60870 Require Import Asdu.Layout Asdu.Codec Asdu.CodecProofs gen.AsduTable
 Import ListNotations.
 Local Open Scope Z_scope.
 
-(* PARTIAL (composition over element lists not yet proved in Coq): what is proved is
-   (1) every accepted addition appends exactly enc_bytes of the object (C12_append, for every row with enc_okb), so the payload of a built
-       ASDU is the concatenation of the objects' encodings;
-   (2) decoding at the place of an encoding returns the object, for both layouts, every address size, any surrounding octets (below);
-   (3) getElementEx reads element idx at the standard's offset with the standard's length (C02_decodes_exact_octets / spec_element).
-   Missing: the lemma that offset idx*(IOA+n) into a concatenation of idx+1.. chunks of equal length is the idx-th chunk, and the
-   resulting statement `get_element (header ++ concat encodings) idx = nth idx objects`; that composition is exercised on the
-   implementation AND on the extracted model by every script of this check (counts 1, 2, K-1, K, up to 127). *)
-Theorem C01_roundtrip_partial : forall a sq o n pre post,
+(* Round trip, individually addressed objects (SQ = 0): in ANY message whose header names the row's type with the SQ bit clear and whose
+   payload is the concatenation of the objects' encodings, element i is object i -- for every row satisfying row_dec_okb, every address
+   size, every element count.  (That the payload of a built ASDU IS this concatenation is C12_append: every accepted addition appends
+   exactly enc_bytes.)  Types with exactly one object (ESingle) round-trip their one object. *)
+Theorem C01_roundtrip_sq0 : forall tbl a r n h (ios : list io) (d : io) (i : nat),
+  ioa_ok a -> len h = hdr_len a -> 2 <= len h ->
+  find_row tbl (nthz 0 h) = Some r -> row_dec_okb r = true -> std_len (tid r) = Some (Fixed n) ->
+  0 <= nthz 1 h < 128 ->
+  (forall o, In o ios -> len (io_body o) = n /\ addr_ok a (io_addr o)) ->
+  (r_elem r = ESingle -> i = 0%nat) -> (i < List.length ios)%nat ->
+  get_element tbl a (h ++ List.concat (map (enc_bytes a false) ios)) (Z.of_nat i) = Ok (Some (nth i ios d)).
+Proof. exact payload_roundtrip_sq0. Qed.
+
+(* Round trip, consecutive addresses (SQ = 1): one address, then the bodies; element i comes back with address base + i *)
+Theorem C01_roundtrip_sq1 : forall tbl a r n h base (ios : list io) (d : io) (i : nat) nsq k gn ga,
+  ioa_ok a -> len h = hdr_len a -> 2 <= len h ->
+  find_row tbl (nthz 0 h) = Some r -> row_dec_okb r = true -> std_len (tid r) = Some (Fixed n) ->
+  r_elem r = ESeq nsq k gn ga -> 128 <= nthz 1 h -> addr_ok a base ->
+  (forall o, In o ios -> len (io_body o) = n) ->
+  (i < List.length ios)%nat ->
+  get_element tbl a (h ++ ioa_bytes a base ++ List.concat (map (enc_bytes a true) ios)) (Z.of_nat i) =
+    Ok (Some {| io_addr := base + Z.of_nat i; io_body := io_body (nth i ios d) |}).
+Proof. exact payload_roundtrip_sq1. Qed.
+
+(* object level: decoding at the place of an encoding returns the object, whatever surrounds it.
+   Re-encoding what was parsed reproduces the octets because what was parsed IS the object (theorems above) and the encoder is a function of it.
+   Not composed in Coq: that new_asdu/set_type/inc_count produce a header h with nthz 0 h = type and the SQ bit as requested
+   (executed by the extracted model and compared with the implementation on every script). *)
+Theorem C01_object_roundtrip : forall a sq o n pre post,
   ioa_ok a -> addr_ok a (io_addr o) -> len (io_body o) = n ->
   dec_spec a (pre ++ enc_bytes a sq o ++ post) (len pre) (negb sq) n =
     Some {| io_addr := if sq then 0 else io_addr o; io_body := io_body o |}.
